@@ -233,7 +233,13 @@ def run_point(arg):
         e = dict(env)
         if rep:
             e["OVNI_VERIF_DELAY"] = str(rep)
-        if fault:
+        if sc == "SHORTWRITE":
+            # no kill: the kernel transfers fewer bytes than asked in some writes
+            # (genuine partial writes made by the driver's write()/writev() shim)
+            e["RTDRV_SHORTWRITE"] = str(k)
+            r = rt.run_script(drv, script, wd, env=e, timeout=120, inline=inline)
+            res["fired"] = not r.timeout and "shortwrites=0" not in r.out
+        elif fault:
             r = rt.run_script(drv, script, wd, env=e, timeout=120, inline=inline,
                               wrapper=inject.strace_argv(log, "%s:error=%s:when=%d" % (sc, fault, k)))
             res["fired"] = inject.fired_error(log)
@@ -343,6 +349,8 @@ def main(argv):
                 for k in ks:
                     work.append((name, script, mode, inline, sc, k, 0))
             exhaustive["%s/%s" % (name, mode)] = len(seen)
+            for seed in range(1, 4 if quick else 12):
+                work.append((name, script, mode, inline, "SHORTWRITE", seed, 0))
             # the process may also die (or go on) after a *failed* call: one
             # failing write/close/open per point during relocation, then the same
             # examination of the final directory
